@@ -119,6 +119,9 @@ def check(prop, tier, replay_case=None, replay_config=None):
                 specs.append({"prop": prop, "tier": tier, "seed": seed, "shard": i, "nshards": n, "config": c,
                               "so": so["ovf" if c == "ovf" else "rel"],
                               "out": os.path.join(outdir, f"{c}-{i:03d}.json")})
+                if plan.get("tz"):
+                    # process-local zone of the shard (TZ + tzset): naive values are resolved by the platform in it
+                    specs[-1]["tz"] = plan["tz"][i % len(plan["tz"])]
         for c in plan.get("suite", []):
             specs.append({"prop": prop, "tier": tier, "seed": seed, "shard": 0, "nshards": 1, "config": c,
                           "so": so["rel"], "suite": True, "out": os.path.join(outdir, f"suite-{c}.json")})
